@@ -202,10 +202,26 @@ class LaguerreStep(vecint.VInterp):
     def ev_If(self, n):
         c = self.ev(n["c"])
         if "e" in n and isinstance(c, sp.Basic) and c.atoms(sp.Symbol) & set(self.shared["free_parts"]):
+            # the sign choice, as an if-expression (value chosen) or as an if-statement (different updates of a local): both branches are evaluated,
+            # the alternatives are recorded, and the execution continues with the `then` branch
+            env0 = dict(self.env)
             t = self.ev(n["t"])
+            env_t = dict(self.env)
+            self.env = dict(env0)
             e = self.ev(n["e"])
+            env_e = dict(self.env)
+            self.env = env_t
             if isinstance(t, sp.Expr) and isinstance(e, sp.Expr):
                 self.shared.setdefault("choices", []).append((c, t, e))
+                return t
+            recorded = False
+            for k_ in env_t:
+                a_, b_ = env_t.get(k_), env_e.get(k_)
+                if isinstance(a_, sp.Expr) and isinstance(b_, sp.Expr) and a_ != b_ and isinstance(env0.get(k_), sp.Expr):
+                    # the choice is between two updates old ∓ step: record the steps
+                    self.shared.setdefault("choices", []).append((c, sp.expand(env0[k_] - a_), sp.expand(env0[k_] - b_)))
+                    recorded = True
+            if recorded:
                 return t
         if isinstance(c, sp.Basic) and c.has(self.shared["P"]):
             return None      # `if val.abs() < tol { break }`: not converged yet
@@ -299,6 +315,17 @@ def check_laguerre_step(F, run, roots):
                     it.env[i], it.names[i] = sp.Integer(0), nm
                 elif nm in ("complex", "derivative"):
                     it.env[i], it.names[i] = sp.Symbol(nm), nm
+    # loop-invariant locals hoisted in front of the loop (e.g. the degree as a complex number): evaluate what can be evaluated
+    from bsa import cfg
+    for st in cfg.preceding_statements(roots["body"], loop):
+        if st.get("k") == "LetS" and "init" in st and "Mut)" not in st["pat"].get("mode", ""):
+            ids = [i for i, _ in pat_binds(st["pat"])]
+            if any(i in it.env for i in ids):
+                continue
+            try:
+                it.run_stmt(st)
+            except Exception:
+                pass
     try:
         it.ev(loop["body"])
     except (sym.Break, sym.Continue):
@@ -326,7 +353,13 @@ def check_laguerre_step(F, run, roots):
               "G or the square root is not p'/p resp. sqrt((n−1)(n·H − G²)) with H = G² − p''/p (G: %s, sqrt²: %s)" % (forms["deriv_quotient"], sp.simplify(forms["sqrt"] ** 2)),
               sample="G = p'/p, s = √((n−1)(nH − G²))")
     cond, a_t, a_e = ch[0]
-    dens = [sp.simplify(n_ / a_t), sp.simplify(n_ / a_e)]
+    # the recorded alternatives are either the two steps n/(G±s) or the two denominators G±s themselves (then the division happens once, after the choice)
+    pm_s = {sp.simplify(sp.expand(sq)), sp.simplify(sp.expand(-sq))}
+    if {sp.simplify(sp.expand(a_t - g)), sp.simplify(sp.expand(a_e - g))} == pm_s:
+        dens = [sp.simplify(a_t), sp.simplify(a_e)]
+        a_t, a_e = n_ / a_t, n_ / a_e
+    else:
+        dens = [sp.simplify(n_ / a_t), sp.simplify(n_ / a_e)]
     okd = {sp.simplify(sp.expand(dens[0] - g)), sp.simplify(sp.expand(dens[1] - g))} == {sp.simplify(sp.expand(sq)), sp.simplify(sp.expand(-sq))}
     run.check(okd, "R14.6", dp, "step=n/(G±s)", where, "the two candidate steps are not n/(G+s) and n/(G−s): denominators %s, %s" % (dens[0], dens[1]), sample="a = n/(G ± s)")
     run.check(sym.is_zero(sp.simplify(xnew - (x - a_t))), "R14.6", dp, "update", where, "the iterate is not updated as x − a")
